@@ -229,10 +229,17 @@ func check(c Case) (string, string) {
 	if d := geomgen.Diff(g, got, true); d != "" {
 		return "parses-to-different-geometry", d + ": " + string(enc)
 	}
-	// shortest round-trip decimal form: every literal is what strconv's
-	// shortest formatting gives for the value
+	// the bytes returned earlier must not change when Encode is called again
+	// (history: Encode, Encode, then use the first result)
+	saved := string(enc)
+	var e2 error
+	if p := try(func() { _, e2 = wkt.Encode(otherGeom) }); p == "" && e2 == nil && saved != string(enc) {
+		return "returned-bytes-changed-by-later-Encode", fmt.Sprintf("was %s, now %s", saved, enc)
+	}
 	return "", ""
 }
+
+var otherGeom = geom.Polygon{{{X: 123456.5, Y: -2}, {X: 3, Y: 4}, {X: 5, Y: 6.25}, {X: 123456.5, Y: -2}}, {{X: 7, Y: 8}}}
 
 func main() {
 	tier := "quick"
@@ -254,7 +261,7 @@ func main() {
 		return
 	}
 	r := report.New("C17", tier, "model_checking")
-	r.Rule = "E1: every structure tree of the five WKT-encodable types with 1..3 members and 1..3(4) vertices per member x every rotation of 19 finite float64 patterns (full product for points, and each pattern repeated on consecutive vertices): the text must be accepted by an independent recursive-descent parser of the OGC WKT grammar and parse to the same type, nesting and bit-identical coordinates; MultiPoint, GeometryCollection and *Bounds must be rejected with an error. Non-trivial = geometries with >= 2 members."
+	r.Rule = "E1: every structure tree of the five WKT-encodable types with 1..3 members and 1..3(4) vertices per member x every rotation of 19 finite float64 patterns (full product for points, and each pattern repeated on consecutive vertices): the text must be accepted by an independent recursive-descent parser of the OGC WKT grammar and parse to the same type, nesting and bit-identical coordinates; the bytes returned by Encode unchanged by later Encode calls (two- and three-call histories); MultiPoint, GeometryCollection and *Bounds must be rejected with an error. Non-trivial = geometries with >= 2 members."
 	cfg := geomgen.Config{MaxMembers: 3, Lens: []int{1, 2, 3}, FlatMax: 3, PolyRings: 2}
 	if tier == "thorough" {
 		cfg = geomgen.Config{MaxMembers: 3, Lens: []int{1, 2, 3, 4}, FlatMax: 5, PolyRings: 3}
@@ -268,6 +275,32 @@ func main() {
 	r.Set("skeletons", len(skels))
 	np := len(geomgen.FinitePatterns)
 	var n, nontrivial int64
+	// sequential history pass (one goroutine, so any sharing between calls is
+	// deterministic): Encode(a), Encode(b), Encode(c); every earlier result
+	// must still hold its own text afterwards.
+	for i := 0; i+2 < len(skels) && i < 600; i += 3 {
+		var encs [3][]byte
+		var saved [3]string
+		ok := true
+		for k := 0; k < 3; k++ {
+			var err error
+			if p := try(func() { encs[k], err = wkt.Encode(build(Case{Skel: skels[i+k], Rot: k})) }); p != "" || err != nil {
+				ok = false
+				break
+			}
+			saved[k] = string(encs[k])
+		}
+		n++
+		if !ok {
+			continue
+		}
+		for k := 0; k < 3; k++ {
+			if string(encs[k]) != saved[k] {
+				r.Violation("returned-bytes-changed-by-later-Encode|sequence", map[string]interface{}{"case": Case{Skel: skels[i+k], Rot: k}, "observed": fmt.Sprintf("was %s, now %s", saved[k], encs[k])})
+				break
+			}
+		}
+	}
 	enum.Parallel(len(skels), r.Expired, func(i int) {
 		s := skels[i]
 		run := func(c Case) {
